@@ -292,7 +292,7 @@ def step (st : St) (ws : List String) : St × String :=
   | ["bsuggest", k, lim] =>
     match parseKey k, lim.toNat? with
     | some key, some limit =>
-      withBucket st (fun ts => showKeys (((sortPairsByKey (bucketPrefix stepLB ts key)).map (·.1)).take (max limit 1)))
+      withBucket st (fun ts => showKeys (bucketSuggest stepLB ts key limit))
     | _, _ => (st, "bad-op")
   | ["blike", p, mode, sub] =>
     match parseKey p, parseKey sub with
